@@ -87,6 +87,7 @@ func RoutingFile(baseIdx int, sub, pkg, goImport, goName string, lit *int, full 
 	f.Messages = append(f.Messages, &spec.Message{Name: "RouteResp", Fields: []*spec.Field{spec.F("echo", 1, spec.String), spec.F("num_val", 2, spec.Int64)}})
 	var cases []*RouteCase
 	nameIdx := 0
+	litOverride := "" // a literal shared by several methods (same path, different verbs)
 	add := func(cfg, verb, shapeLabel string, tmpl string, vars []string, hasVerb bool, leadingSlash bool) {
 		*lit++
 		k := *lit
@@ -133,7 +134,14 @@ func RoutingFile(baseIdx int, sub, pkg, goImport, goName string, lit *int, full 
 				h.Verb = spec.Verb(verb)
 			}
 			if tmpl != "" {
-				p := fmt.Sprintf(tmpl, fmt.Sprintf("m%d", k))
+				p := tmpl
+				if strings.Contains(tmpl, "%s") {
+					word := fmt.Sprintf("m%d", k)
+					if litOverride != "" {
+						word = litOverride
+					}
+					p = fmt.Sprintf(tmpl, word)
+				}
 				if !leadingSlash {
 					p = strings.TrimPrefix(p, "/")
 					rc.PathShape += "-noslash"
@@ -184,6 +192,24 @@ func RoutingFile(baseIdx int, sub, pkg, goImport, goName string, lit *int, full 
 				add("pathquery", v, PathShapes[ps].Label, PathShapes[ps].Tmpl, PathShapes[ps].Vars, true, true)
 			}
 		}
+	case "shared":
+		// one path shared by several verbs; trailing slashes; the bare "/" under the base path
+		for gi, g := range []struct {
+			label, tmpl string
+			vars        []string
+			verbs       []string
+		}{
+			{"same-path", "/%s/{id}", []string{"id"}, []string{"GET", "PUT", "DELETE", "PATCH"}},
+			{"trailing-slash", "/%s/", nil, []string{"GET", "POST", "DELETE"}},
+			{"trailing-slash-after-var", "/%s/{id}/archive/", []string{"id"}, []string{"GET", "PATCH"}},
+			{"bare-slash", "/", nil, []string{"GET", "POST"}},
+		} {
+			litOverride = fmt.Sprintf("s%d", gi)
+			for _, v := range g.verbs {
+				add("shared", v, g.label, g.tmpl, g.vars, true, true)
+			}
+		}
+		litOverride = ""
 	case "bodyquery":
 		// body verbs with query-annotated fields (generators place them differently)
 		for _, v := range []string{"POST", "PUT", "PATCH"} {
